@@ -1,9 +1,11 @@
 """harnesses - one module per property family; PLAN maps a property to the harnesses that decide it."""
-from . import k04, k13  # noqa: F401
+from . import k04, k13, k16, k20  # noqa: F401
 
 PLAN = {
     "C03": ["K03"],
-    "C04": ["K04a"],
+    "C04": ["K04a", "K16"],
     "C06": ["K06"],
     "C13": ["K13a", "K13b"],
+    "C16": ["K16"],
+    "C20": ["K20a", "K20b"],
 }
